@@ -18,3 +18,5 @@ def run(ctx, rep):
     more4.rule_setup_space(mod, rep)
     from ..rules import more4
     more4.rule_int_work_fill(mod, rep)
+    from ..rules import more5
+    more5.rule_info_init(ctx.mod, rep)
